@@ -66,13 +66,21 @@ def apply_simple_adc(
     1. Rounds the normalized values to the nearest integer using truncation.
     1. Converts the resulting array to the specified data type (dtype).
     """
-    output = (
-        (np.clip(signal, a_min=voltage_min, a_max=voltage_max) - voltage_min)
-        * (2**bit_resolution - 1)
-        / (voltage_max - voltage_min)
-    )
+    full_scale: int = 2**bit_resolution - 1
 
-    return np.trunc(output).astype(dtype)
+    # Normalized signal, 0.0 at (or below) 'voltage_min', exactly 1.0 at (or above) 'voltage_max'
+    ratio = (np.clip(signal, a_min=voltage_min, a_max=voltage_max) - voltage_min) / (
+        voltage_max - voltage_min
+    )
+    is_saturated = ratio >= 1.0
+
+    # Below saturation 'ratio' is lower than 1.0 and the code never exceeds full scale.
+    # Saturated values are set as integers because 2^bit_resolution - 1 has no exact
+    # floating-point representation for more than 53 bits
+    output = np.trunc(np.where(is_saturated, 0.0, ratio) * full_scale).astype(dtype)
+    output[is_saturated] = full_scale
+
+    return output
 
 
 def simple_adc(
